@@ -10,7 +10,7 @@ from ..pool import guarded, run_cases
 
 THEOREMS = ["C01_default_in_prose", "C01_default_announced_once", "C01_default_stripped", "C01_quote_idempotent", "C01_example",
             "C01_rest_scan_lossless", "C01_rest_scan_splits_at_tokens", "C01_rest_emit_canonical", "C01_rest_parse_canonical",
-            "C01_rest_roundtrip", "C01_rest_roundtrip_return_only", "C01_rest_roundtrip_no_types", "C01_rest_example", "C01_rest_tokens_are_the_sources"]
+            "C01_rest_roundtrip", "C01_rest_roundtrip_return_only", "C01_rest_roundtrip_no_types", "C01_rest_emit_indented_canonical", "C01_rest_roundtrip_indented", "C01_rest_example", "C01_rest_tokens_are_the_sources"]
 # no " of " / " or ": those make _set_name_and_type infer a type from the prose (parse_adhoc_doc_for_typ, C17's subject), outside Model/RestDoc.v
 REST_WORDS = ["the", "size", "within", "buffer", "in", "bytes", "name", "used", "for", "lookup", "how", "many", "items", "(optional)", "e.g.", "a-b",
               "x_y", "[units]", "100%", "fast;", "slow,", "path/to", "it's", '"quoted"', "param", "type", "return", "rtype", "3.5", "N/A", "é"]
@@ -214,11 +214,14 @@ def rest_impl(c):
     text = docstring(ir, docstring_format="rest", word_wrap=False, emit_types=True, emit_default_doc=False)
     back = parse_docstring(text, emit_default_doc=False)
     text_nt = docstring(ir, docstring_format="rest", word_wrap=False, emit_types=False, emit_default_doc=False)
+    lvl = 1 + len(c["params"]) % 2
+    text_in = docstring(ir, docstring_format="rest", word_wrap=False, emit_types=True, emit_default_doc=False, indent_level=lvl)
     shape = lambda r: [r["doc"], [[n, [v.get("doc"), v.get("typ")]] for n, v in r["params"].items()],
                        None if not r["returns"] else [r["returns"]["return_type"].get("doc"), r["returns"]["return_type"].get("typ")]]
     extra = sorted({k for v in back["params"].values() for k in v} - {"doc", "typ"})
     scan = lambda t: [[bool(a), b] for a, b in _scan_phase_rest(t, ARG_TOKENS.rest, RETURN_TOKENS.rest)]
-    return {"text": text, "text_no_types": text_nt, "back_no_types": shape(parse_docstring(text_nt, emit_default_doc=False)) if text_nt else None,
+    return {"text": text, "indent_level": lvl, "text_indented": text_in,
+            "back_indented": shape(parse_docstring(text_in, emit_default_doc=False)) if text_in else None, "text_no_types": text_nt, "back_no_types": shape(parse_docstring(text_nt, emit_default_doc=False)) if text_nt else None,
             "back": shape(back), "extra_keys": extra, "scan_text": scan(text), "scan_wild": scan(c["scan"])}
 
 
@@ -239,6 +242,12 @@ def worker(batch):
             m_parse = call_many("rest_parse", [v["text"] for _c, v in ok])
             m_scan = call_many("rest_scan", [v["text"] for _c, v in ok])
             m_wild = call_many("rest_scan", [c["scan"] for c, _v in ok])
+            m_emit_in = call_many("rest_emit_indented", [[v["indent_level"], True] + w for (c, v), w in zip(ok, want)])
+            for (c, v), w, mi in zip(ok, want, m_emit_in):
+                if v["text_indented"] != mi:
+                    out["corr"].append({"stage": "RestDoc emit (indent_level %d)" % v["indent_level"], "input": c, "impl": v["text_indented"], "model": mi})
+                if c["params"] and not c.get("adhoc") and v["back_indented"] != w:
+                    out["items"].append(("C01/rest-domain/roundtrip-indented", {"want": w, "got": v["back_indented"], "text": v["text_indented"]}, c))
             for (c, v), ment in zip(ok, m_emit_nt):
                 if v["text_no_types"] != ment:
                     out["corr"].append({"stage": "RestDoc emit (emit_types off)", "input": c, "impl": v["text_no_types"], "model": ment})
